@@ -21,9 +21,10 @@ Record done := { istart : Z; iend : Z; iout : outcome }.
 Section Exec.
 Variable limit : nat.          (* concurrency limit, >= 1 *)
 Variable tau : Z.              (* futures timeout, 0 = none *)
+Variable errdelay : Z.         (* how long the (awaited) error callback of a failed item takes *)
 
 Definition eff (it : item) : Z * outcome :=
-  if (0 <? tau) && (tau <? dur it) then (tau, OTimedOut) else (dur it, if fails it then OFailed else OOk).
+  if (0 <? tau) && (tau <? dur it) then (tau, OTimedOut) else if fails it then (dur it + errdelay, OFailed) else (dur it, OOk).
 
 (* the smallest element of a non-empty list and the rest *)
 Fixpoint pop_min (l : list Z) : option (Z * list Z) :=
@@ -94,19 +95,22 @@ Definition status_code (s : status) : Z :=
 Definition ended (s : status) : bool := match s with ProgrammaticallyEnded | StreamEnded => true | _ => false end.
 
 (* trace of the correspondence check *)
-Definition exec_trace (limit : nat) (tau : Z) (its : list item) (t_close : Z) : list Z :=
-  let ds := run limit tau its in
+Definition exec_trace (limit : nat) (tau errdelay : Z) (metrics : bool) (its : list item) (t_close : Z) : list Z :=
+  let ds := run limit tau errdelay its in
+  let c (k : nat) : Z := if metrics then Z.of_nat k else 0 in
   let n := Z.of_nat (length its) in
-  [2; 0; 70; Z.of_nat (count_out OOk ds); Z.of_nat (count_out OFailed ds);
-   2; 0; 71; Z.of_nat (count_out OTimedOut ds); Z.of_nat (count_out OFailed ds);
+  [2; 0; 70; c (count_out OOk ds); c (count_out OFailed ds);
+   2; 0; 71; c (count_out OTimedOut ds); Z.of_nat (count_out OFailed ds);
    2; 0; 72; Z.of_nat (max_in_flight ds); Z.of_nat (done_at ds (t_drop limit ds t_close));
    2; 0; 73; finish_time ds; 1;
    2; 0; 74; 1; n;
-   2; 0; 75; status_code (srun [SStart; SFinish]); 0; 9].
+   2; 0; 75; status_code (srun [SStart; SFinish]); 0;
+   2; 0; 78; Z.of_nat (count_out OFailed ds); Z.of_nat (count_out OFailed ds); 9].
 (* the close callback runs once, after the last of the n items, and reads the status cell *)
 Definition status_trace (ops : list sop) (n : Z) : list Z := [2; 0; 76; status_code (srun ops); 0;  2; 0; 77; 1; n;  9].
 (* non-future executors: every item is processed synchronously inside the stream's `map` when the executor polls it *)
-Definition exec_trace_sync (its : list item) : list Z :=
+Definition exec_trace_sync (metrics : bool) (its : list item) : list Z :=
   let n := Z.of_nat (length its) in
   let f := Z.of_nat (length (filter fails its)) in
-  [2; 0; 70; n - f; f;  2; 0; 71; 0; f;  2; 0; 72; Z.min 1 n; n;  2; 0; 73; 0; 1;  2; 0; 74; 1; n;  2; 0; 75; status_code (srun [SStart; SFinish]); 0; 9].
+  let c (k : Z) : Z := if metrics then k else 0 in
+  [2; 0; 70; c (n - f); c f;  2; 0; 71; 0; f;  2; 0; 72; Z.min 1 n; n;  2; 0; 73; 0; 1;  2; 0; 74; 1; n;  2; 0; 75; status_code (srun [SStart; SFinish]); 0;  2; 0; 78; f; f; 9].
